@@ -33,21 +33,21 @@ P = {
          "7 raw widths x 2 data orders x small sizes exhaustive x random bytes x offsets x sub-image areas (nested twice).", "4 C09"),
  "c10": ("exploration", "history + executable model: random write histories on Framebuffer instantiations (7 depths x 2 orders x several sizes, exact and oversized buffers) with a reference map updated in lockstep; pixel(), data(), as_image() (drawn on unbounded and bounded targets) compared after every operation; fills reaching beyond i32::MAX (about 2^31 points walked by the documented default)",
          "Read-your-writes, no write outside, tail bytes untouched, layout equals ImageRaw's.", "4 C10"),
- "c11": ("exploration", "independent encoder of the two documented layouts as reference model for store/load; iterator positions and size_hint after random next()/nth() mixes compared with load(i); the iterator consumed through count/last/fold/skip, also after an overshooting nth(huge); documented bit widths; buffers up to megabytes (size_hint, load, nth, tail consumers, store); lazily mapped buffers with more than 2^32 pixels",
+ "c11": ("exploration", "independent encoder of the two documented layouts as reference model for store/load; iterator positions and size_hint after random next()/nth() mixes compared with load(i); the iterator consumed through count/last/fold/skip, also after an overshooting nth(huge); documented bit widths; buffers up to megabytes (size_hint, load, nth, tail consumers, store); lazily mapped buffers with more than 2^32 pixels; nth after 1..=3 x next() on large buffers",
          "7 raw types x 2 orders x all indices in buffers 0..=L x all values up to 16 bits (exhaustive) / boundary+random 24/32 bits x background patterns.", "4 C11"),
  "c12": ("exploration", "exhaustive enumeration of every colour value and every raw value of all 14 colour types against the documented bit layouts (independent model); raw values obtained with RawData::load from packed bytes in both data orders",
          "Quick: all values up to 16 bits, per-channel exhaustive + random for 24-bit types; thorough: every value.", "4 C12"),
  "c13": ("exploration", "exhaustive enumeration of source colours for every From conversion between built-in colour types against exact rational scaling (nearest value, monotone, extremes, round trips, luma thresholds); sources made with constructors and from raw data with arbitrary padding bits",
          "Quick: all values up to 16 bits, per-channel exhaustive + random for 24-bit sources; thorough: every source value of every pair.", "4 C13"),
- "c14": ("exploration", "reference model of glyph placement (atlas cell designated by the font's mapping, read with font.image.pixel) compared with the recorded pixel map of Text::draw on unbounded and bounded targets; data checks over every built-in font and mapping incl. all 1.1 million scalar values per mapping",
+ "c14": ("exploration", "reference model of glyph placement (atlas cell designated by the font's mapping, read with font.image.pixel) compared with the recorded pixel map of Text::draw on unbounded and bounded targets; data checks over every built-in font and mapping incl. all 1.1 million scalar values per mapping; range mappings across the surrogate gap; fonts with tens of thousands of glyphs; special characters at string starts",
          "All built-in fonts of the working tree x every mapped character + unmapped ones x colour/decoration combinations; custom fonts with spacing and odd atlases.", "4 C14"),
- "c15": ("exploration", "relational oracles on recorded pixel maps and returned positions: draw vs measure_string, chained drawing vs concatenation, alignment/baseline geometry of the painted line boxes, multi-line vs separately drawn lines, CRLF vs LF, same position and visible part on bounded targets; exhaustive sweep of LineHeight::to_absolute against floor(base * percent / 100)",
+ "c15": ("exploration", "relational oracles on recorded pixel maps and returned positions: draw vs measure_string, chained drawing vs concatenation, alignment/baseline geometry of the painted line boxes, multi-line vs separately drawn lines, CRLF vs LF, same position and visible part on bounded targets; exhaustive sweep of LineHeight::to_absolute against floor(base * percent / 100); special characters (byte order mark, separators, non-characters) at string and line starts",
          "Strings incl. empty lines/trailing newline/CRLF/unmapped characters x built-in fonts x alignments x baselines x line heights x decorations x positions.", "4 C15"),
  "c16": ("exploration", "reference model (explicit point sets / i64 interval pairs) compared with the public Rectangle methods (contains and offset through the inherent methods and the ContainsPoint/OffsetOutline traits, points() also through count/last/fold/nth from partly consumed states); exhaustive over a small grid, random up to +-2^20; operands from powers of two, their neighbours and 1.5 x 2^k",
          "All ordered pairs of grid rectangles incl. zero sizes, every rectangle x anchors x sizes x offsets, plus random large rectangles.", "4 C16"),
- "c17": ("exploration", "exact integer oracle of the statement over the point sequences of Line::points() and Styled<Line>::pixels(): end points, count, unit steps, half-pixel error bound, thick-line containment/uniqueness/distance/extent/width bounds for all three stroke alignments; draw() on unbounded and bounded targets == pixels(); both iterators consumed through count/last/fold/nth/skip from partly consumed states; lines far from the origin (beyond 16 bits)",
+ "c17": ("exploration", "exact integer oracle of the statement over the point sequences of Line::points() and Styled<Line>::pixels(): end points, count, unit steps, half-pixel error bound, thick-line containment/uniqueness/distance/extent/width bounds for all three stroke alignments; draw() on unbounded and bounded targets == pixels(); both iterators consumed through count/last/fold/nth/skip from partly consumed states; lines far from the origin (beyond 16 bits); special deltas (Fibonacci pairs, powers of two +- 1, multiples)",
          "All end points in a grid x widths (exhaustive) plus random long lines.", "4 C17"),
- "c18": ("exploration", "exact/f64 geometric oracles (doubled-coordinate distance for circles, closest-point distance to ellipse/corner curves with guard bands, angle test for arcs/sectors) plus equivalence relations between primitives; both arithmetic back-ends; confine_radii() arithmetic on millions of display-scale rectangles (sums never exceed the side, fitting radii unchanged, no radius grows); circles up to 2100 px",
+ "c18": ("exploration", "exact/f64 geometric oracles (doubled-coordinate distance for circles, closest-point distance to ellipse/corner curves with guard bands, angle test for arcs/sectors) plus equivalence relations between primitives; both arithmetic back-ends; confine_radii() arithmetic on millions of display-scale rectangles (sums never exceed the side, fitting radii unchanged, no radius grows); circles up to 2100 px; ellipses with both axes 100..600 px",
          "Exhaustive over diameters/axis pairs/radius combinations/1-degree angle grids up to the stated bounds, random fractional angles; default and fixed_point builds.", "4 C18"),
  "c19": ("exploration", "exact cross-product oracles over point sets from Triangle::points(), Styled<Triangle>::pixels() and Polyline::points(): interior coverage, 1-px edge band, vertex-order independence, shared-edge gap freedom, outline/polyline = union of Line segments; draw() of fills, outlines and polylines on unbounded and bounded targets; triangles and polylines far from the origin; edges of 2500..6500 px",
          "All vertex triples on a small grid (exhaustive) and random larger ones; all pairs of triangles sharing an edge; polylines of 0..=6 vertices.", "4 C19"),
